@@ -52,6 +52,28 @@ def contracts(reg):
     def m_close(ex, st, obj, args, kwargs, node):
         return [(st, NONE)]
 
+    from pyvc.values import VDictC, VRef
+
+    def with_local_ns(model):
+        """The element model reads namespace maps from module-level constants; a local dict literal {"p": "uri"} is the same thing."""
+        def wrapped(ex, st, obj, args, kwargs, node):
+            def conv(v):
+                if isinstance(v, VRef):
+                    o = st.obj(v.ref)
+                    if o.kind == "dict" and isinstance(o.data, dict) and all(isinstance(k, str) and isinstance(x, VStr) and x.const() is not None
+                                                                             for k, x in o.data.items()):
+                        return VDictC(dict(o.data))
+                return v
+            args = [conv(a) for a in args]
+            kwargs = {k: conv(v) for k, v in kwargs.items()}
+            return model(ex, st, obj, args, kwargs, node)
+        return wrapped
+    try:
+        for name in ("find", "findall"):
+            reg.method_models[("Elem", name)] = with_local_ns(reg.method_models[("Elem", name)])
+    except Exception:  # noqa -- value classes changed: keep the plain model
+        pass
+
     reg.ext_models[("new", "OOXMLZipContext")] = new_ctx
     reg.ext_models[("new", "ZipContext")] = new_ctx
     reg.method_models[("ZipCtx", "exists")] = m_exists
@@ -108,6 +130,14 @@ def site_obligations(mods):
             if flag:
                 why = f"no `if not {flag}: <metadata>.{field} = ''` found"
                 for n in ast.walk(f):
+                    # <metadata>.field = <kept> if flag else ""   /   = "" if not flag else <kept>
+                    if isinstance(n, ast.Assign) and len(n.targets) == 1 and isinstance(n.targets[0], ast.Attribute) and n.targets[0].attr == field \
+                            and isinstance(n.value, ast.IfExp):
+                        t, a_, b_ = n.value.test, n.value.body, n.value.orelse
+                        blank = lambda e: isinstance(e, ast.Constant) and e.value in ("", None)
+                        if (isinstance(t, ast.Name) and t.id == flag and blank(b_)) or \
+                                (isinstance(t, ast.UnaryOp) and isinstance(t.op, ast.Not) and isinstance(t.operand, ast.Name) and t.operand.id == flag and blank(a_)):
+                            ok, why = True, f"line {n.lineno}: {ast.unparse(n)[:70]}"
                     if not isinstance(n, ast.If):
                         continue
                     t = n.test
